@@ -365,8 +365,9 @@ PeerGone(n, p) ==
      IN /\ seen' = [seen EXCEPT ![n] = @ \ K]
         /\ proc' = {x \in proc : ~(x[1] = n /\ <<x[2], x[3]>> \in K)}
         /\ fwd' = {x \in fwd : ~(x[1] = n /\ <<x[3], x[4]>> \in K)}
+  /\ rejoin' = {}       \* (a teardown that is handled after a connect is a later topology event)
   /\ last' = [act |-> "PeerGone", n |-> n, p |-> p]
-  /\ UNCHANGED <<rejoin, cfg, up, pend, ctr, net, nann, sent, viol, clean, bud>>
+  /\ UNCHANGED <<cfg, up, pend, ctr, net, nann, sent, viol, clean, bud>>
 
 (* ---- route ageing ----------------------------------------------------------*)
 \* time passes: everything stored so far is older than the route TTL
@@ -444,7 +445,9 @@ Converged == Quiescent /\ Reachable => \A o \in Agent : clean[o] => \A a \in Rea
 \* (evaluated at quiescence while that connect is the last topology / ageing event)
 Givable(n, p, o) == \A e \in tbl[n] : e.o = o => /\ e.nh # p /\ p \notin SeqToSet(e.path)
                                                    /\ Len(e.path) + 1 <= cfg.hops[p] /\ Fits(<<n>> \o e.path)
-Resynced == Quiescent /\ rejoin # {} =>
+\* Not claimed once routes have been aged out: CleanupStale removes routes without telling the flooder, so a seen-cache
+\* entry can outlive its routes when the route TTL is configured below the (fixed) seen-cache lifetime.
+Resynced == Quiescent /\ rejoin # {} /\ bud.age = 0 =>
               \A n \in rejoin : \A p \in rejoin \ {n} : \A e \in tbl[n] :
                  e.o # p /\ Givable(n, p, e.o) => \E f \in tbl[p] : f.o = e.o /\ f.r = e.r
 
